@@ -41,7 +41,8 @@ structure St where
 
 /-- Initial state: slice/array with `n` elements `init i`, capacity `c ≥ n`, nothing cached. -/
 def St.init (fixed : Bool) (n c : Nat) (init : Nat → Val) : St :=
-  { fixed := fixed, mem := fun b i => if b = 0 ∧ i < n then init i else 0, cap := fun b => if b = 0 then max n c else 0,
+  -- cells [n, cap) are the SPARE CAPACITY: whatever Go left there (a slice built as buf[:n])
+  { fixed := fixed, mem := fun b i => if b = 0 ∧ i < max n c then init i else 0, cap := fun b => if b = 0 then max n c else 0,
     nb := 1, cur := 0, len := n, clen := 0, cache := fun _ => none, ws := fun _ => .own 0, nw := 0, panic := false }
 
 def St.slot (s : St) (i : Nat) : Val := s.mem s.cur i
